@@ -2,151 +2,109 @@
 use super::*;
 use std::net::{IpAddr, Ipv4Addr};
 
-fn any_entry() -> FlowEntry {
-    if kani::any() {
+const M: usize = 2;
+
+/// A symbolic flow of <= 2 entries, also returned as plain data (tags: 0 = unknown, else 10.0.0.x).
+fn any_flow() -> (Flow, [u8; M], usize) {
+    let n: usize = kani::any();
+    kani::assume(n <= M);
+    let tags: [u8; M] = kani::any();
+    let mut entries = Vec::with_capacity(M);
+    if n >= 1 {
+        entries.push(mk(tags[0]));
+    }
+    if n >= 2 {
+        entries.push(mk(tags[1]));
+    }
+    (Flow { entries }, tags, n)
+}
+
+fn mk(tag: u8) -> FlowEntry {
+    if tag == 0 {
         FlowEntry::Unknown
     } else {
-        FlowEntry::Known(IpAddr::V4(Ipv4Addr::new(10, 0, 0, kani::any())))
+        FlowEntry::Known(IpAddr::V4(Ipv4Addr::new(10, 0, 0, tag)))
     }
 }
 
-fn any_flow(max: usize) -> Flow {
-    let n: usize = kani::any();
-    kani::assume(n <= max);
-    let mut entries = Vec::with_capacity(3);
-    let mut i = 0;
-    while i < 3 {
-        if i < n {
-            entries.push(any_entry());
-        }
-        i += 1;
-    }
-    Flow { entries }
-}
-
-fn entry_eq(a: &FlowEntry, b: &FlowEntry) -> bool {
-    match (a, b) {
-        (FlowEntry::Unknown, FlowEntry::Unknown) => true,
-        (FlowEntry::Known(IpAddr::V4(x)), FlowEntry::Known(IpAddr::V4(y))) => u32::from(*x) == u32::from(*y),
-        _ => false,
+fn tag_of(e: &FlowEntry) -> u8 {
+    match e {
+        FlowEntry::Unknown => 0,
+        FlowEntry::Known(IpAddr::V4(a)) => a.octets()[3],
+        FlowEntry::Known(_) => 255,
     }
 }
 
-/// position-by-position agreement: every KNOWN entry of `seen` equals the recorded entry
-fn agrees(recorded: &Flow, seen: &Flow) -> bool {
-    let mut i = 0;
-    let mut ok = true;
-    while i < 3 {
-        if i < seen.entries.len() {
-            if let FlowEntry::Known(_) = seen.entries[i] {
-                ok = ok && i < recorded.entries.len() && entry_eq(&recorded.entries[i], &seen.entries[i]);
-            }
-        }
-        i += 1;
-    }
-    ok
-}
-
-/// `recorded_after` extends `recorded_before`: nothing known is forgotten or changed, never shorter
-fn extends(before: &Flow, after: &Flow) -> bool {
-    let mut i = 0;
-    let mut ok = after.entries.len() >= before.entries.len();
-    while i < 3 {
-        if i < before.entries.len() {
-            if let FlowEntry::Known(_) = before.entries[i] {
-                ok = ok && i < after.entries.len() && entry_eq(&before.entries[i], &after.entries[i]);
-            }
-        }
-        i += 1;
-    }
-    ok
-}
-
-/// check / merge on one recorded flow and one observed flow (<= 3 entries each, symbolic).
+/// check / merge on one recorded flow and one observed flow (<= 2 entries each, symbolic):
+/// NoMatch iff some position holds two different known addresses; after a merge the flow agrees
+/// position by position with every address seen, and extends (never contradicts or forgets)
+/// what was recorded.
 #[kani::proof]
-#[kani::unwind(5)]
+#[kani::unwind(6)]
 fn c15_check_and_merge() {
-    let mut rec = any_flow(2);
-    let before = Flow { entries: rec.entries.clone() };
-    let seen = any_flow(3);
+    let (mut rec, rt, rn) = any_flow();
+    let (seen, st, sn) = any_flow();
     let status = rec.check(&seen);
-    // NoMatch iff some position holds two different known addresses
-    let mut conflict = false;
-    let mut i = 0;
-    while i < 3 {
-        if i < before.entries.len() && i < seen.entries.len() {
-            if let (FlowEntry::Known(_), FlowEntry::Known(_)) = (before.entries[i], seen.entries[i]) {
-                conflict = conflict || !entry_eq(&before.entries[i], &seen.entries[i]);
-            }
-        }
-        i += 1;
-    }
-    assert!((status == CheckStatus::NoMatch) == conflict);
-    if status == CheckStatus::Match {
-        assert!(agrees(&before, &seen), "a plain match needs no new information");
+    let c0 = rn >= 1 && sn >= 1 && rt[0] != 0 && st[0] != 0 && rt[0] != st[0];
+    let c1 = rn >= 2 && sn >= 2 && rt[1] != 0 && st[1] != 0 && rt[1] != st[1];
+    assert!((status == CheckStatus::NoMatch) == (c0 || c1));
+    let adds = (rn >= 1 && sn >= 1 && rt[0] == 0 && st[0] != 0) || (rn >= 2 && sn >= 2 && rt[1] == 0 && st[1] != 0);
+    if !(c0 || c1) {
+        assert!((status == CheckStatus::MatchMerge) == (sn > rn || adds));
     }
     if status == CheckStatus::MatchMerge {
         rec.merge(&seen);
-        assert!(agrees(&rec, &seen), "after the merge the flow agrees with every address seen");
-        assert!(extends(&before, &rec), "and extends, never contradicts or forgets, what was recorded");
+        let len = rec.entries.len();
+        assert!(len == if rn > sn { rn } else { sn }, "never shorter, long enough for the round");
+        if len >= 1 {
+            let t = tag_of(&rec.entries[0]);
+            assert!(sn < 1 || st[0] == 0 || t == st[0], "agrees with the address seen at ttl 1");
+            assert!(rn < 1 || rt[0] == 0 || t == rt[0], "keeps what was recorded at ttl 1");
+        }
+        if len >= 2 {
+            let t = tag_of(&rec.entries[1]);
+            assert!(sn < 2 || st[1] == 0 || t == st[1], "agrees with the address seen at ttl 2");
+            assert!(rn < 2 || rt[1] == 0 || t == rt[1], "keeps what was recorded at ttl 2");
+        }
     }
-    kani::cover!(status == CheckStatus::MatchMerge && seen.entries.len() > before.entries.len(), "longer path merged");
+    kani::cover!(status == CheckStatus::MatchMerge && sn > rn, "longer path merged");
     kani::cover!(status == CheckStatus::NoMatch, "different path");
+    kani::cover!(status == CheckStatus::Match, "plain match");
     std::mem::forget(rec);
-    std::mem::forget(before);
     std::mem::forget(seen);
 }
 
-/// register on a registry holding 0..=2 flows: the returned id's stored flow agrees with the round's
-/// addresses; previously recorded flows are extended only; a new id is issued iff nothing matches,
-/// and it is len + 1 (dense from 1); first match wins.
+/// register on a registry holding one flow: first match wins and keeps its id; otherwise a new id
+/// len + 1 is issued (dense from 1); the flow the round is attributed to agrees with the round.
 #[kani::proof]
-#[kani::unwind(5)]
+#[kani::unwind(6)]
 fn c15_register() {
     let mut reg = FlowRegistry::new();
-    let f1 = any_flow(2);
-    let f2 = any_flow(1);
-    let n0: u8 = kani::any();
-    kani::assume(n0 <= 2);
-    let c1 = Flow { entries: f1.entries.clone() };
-    let c2 = Flow { entries: f2.entries.clone() };
-    if n0 >= 1 {
-        let id = reg.register(f1);
-        assert!(id == FlowId(1), "identifiers are issued from 1");
-    }
-    if n0 >= 2 {
-        let id = reg.register(f2);
-        assert!(id == FlowId(1) || id == FlowId(2), "densely");
-    }
-    let len0 = reg.flows().len();
-    let snap0 = if len0 >= 1 { Some(Flow { entries: reg.flows()[0].0.entries.clone() }) } else { None };
-    let snap1 = if len0 >= 2 { Some(Flow { entries: reg.flows()[1].0.entries.clone() }) } else { None };
-    let seen = any_flow(2);
-    let m0 = snap0.as_ref().map_or(false, |f| f.check(&seen) != CheckStatus::NoMatch);
-    let m1 = snap1.as_ref().map_or(false, |f| f.check(&seen) != CheckStatus::NoMatch);
-    let seen_copy = Flow { entries: seen.entries.clone() };
+    let (f1, t1, n1) = any_flow();
+    let id1 = reg.register(f1);
+    assert!(id1 == FlowId(1), "identifiers are issued from 1");
+    let (seen, st, sn) = any_flow();
+    let c0 = n1 >= 1 && sn >= 1 && t1[0] != 0 && st[0] != 0 && t1[0] != st[0];
+    let c1 = n1 >= 2 && sn >= 2 && t1[1] != 0 && st[1] != 0 && t1[1] != st[1];
     let id = reg.register(seen);
-    let len1 = reg.flows().len();
-    if m0 {
-        assert!(id == FlowId(1) && len1 == len0, "first match wins, no new flow");
-    } else if m1 {
-        assert!(id == FlowId(2) && len1 == len0);
+    if c0 || c1 {
+        assert!(id == FlowId(2) && reg.flows().len() == 2, "no registered flow matches: new id = len + 1");
+        let kept = &reg.flows()[0].0;
+        assert!(kept.entries.len() == n1, "the other flow is untouched");
     } else {
-        assert!(len1 == len0 + 1 && id == FlowId(len1 as u64), "new id = number of flows (dense from 1)");
+        assert!(id == FlowId(1) && reg.flows().len() == 1, "a matching flow keeps its id; no flow is created");
     }
     let stored = &reg.flows()[(id.0 - 1) as usize];
     assert!(stored.1 == id);
-    assert!(agrees(&stored.0, &seen_copy), "the flow the round is attributed to agrees with every address seen");
-    if let Some(s) = &snap0 {
-        assert!(extends(s, &reg.flows()[0].0), "flow 1 only ever extended");
+    if sn >= 1 && st[0] != 0 {
+        assert!(tag_of(&stored.0.entries[0]) == st[0], "attributed flow agrees with the round at ttl 1");
     }
-    if let Some(s) = &snap1 {
-        assert!(extends(s, &reg.flows()[1].0), "flow 2 only ever extended");
+    if sn >= 2 && st[1] != 0 {
+        assert!(tag_of(&stored.0.entries[1]) == st[1], "attributed flow agrees with the round at ttl 2");
     }
-    kani::cover!(len0 == 2 && !m0 && m1, "second flow matched");
-    kani::cover!(len0 == 2 && len1 == 3, "third flow created");
+    kani::cover!(id == FlowId(2), "second flow created");
+    kani::cover!(id == FlowId(1) && sn > n1, "existing flow extended");
     std::mem::forget(reg);
-    std::mem::forget((c1, c2, snap0, snap1, seen_copy));
 }
 
 /// from_hops maps None / Some(addr) to Unknown / Known(addr) in order.
